@@ -353,43 +353,43 @@ fn server_login_start_external(has_record: bool) {
 harnesses! {
     #[cfg_attr(kani, kani::stub(crate::opaque::get_password_derived_key, crate::verif_kani::w_stubs::gpdk))]
     #[cfg_attr(kani, kani::stub(crate::envelope::Envelope::seal, crate::envelope::Envelope::verif_seal_stub))]
-    fn w1_client_reg_finish_default_ids [unwind = 36] { reg_finish_case(0); }
+    fn w1_client_reg_finish_default_ids [unwind = 56] { reg_finish_case(0); }
     #[cfg_attr(kani, kani::stub(crate::opaque::get_password_derived_key, crate::verif_kani::w_stubs::gpdk))]
     #[cfg_attr(kani, kani::stub(crate::envelope::Envelope::seal, crate::envelope::Envelope::verif_seal_stub))]
-    fn w1_client_reg_finish_explicit_ids [unwind = 36] { reg_finish_case(1); }
+    fn w1_client_reg_finish_explicit_ids [unwind = 56] { reg_finish_case(1); }
     #[cfg_attr(kani, kani::stub(crate::opaque::get_password_derived_key, crate::verif_kani::w_stubs::gpdk))]
     #[cfg_attr(kani, kani::stub(crate::envelope::Envelope::seal, crate::envelope::Envelope::verif_seal_stub))]
-    fn w1_client_reg_finish_mixed_ids [unwind = 36] { reg_finish_case(2); }
+    fn w1_client_reg_finish_mixed_ids [unwind = 56] { reg_finish_case(2); }
 
     #[cfg_attr(kani, kani::stub(crate::opaque::get_password_derived_key, crate::verif_kani::w_stubs::gpdk))]
     #[cfg_attr(kani, kani::stub(crate::opaque::unmask_response, crate::verif_kani::w_stubs::unmask))]
     #[cfg_attr(kani, kani::stub(crate::envelope::Envelope::open, crate::envelope::Envelope::verif_open_stub))]
-    fn w3_client_login_finish_default_ids [unwind = 46] { login_finish_case(0, false); }
+    fn w3_client_login_finish_default_ids [unwind = 120] { login_finish_case(0, false); }
     #[cfg_attr(kani, kani::stub(crate::opaque::get_password_derived_key, crate::verif_kani::w_stubs::gpdk))]
     #[cfg_attr(kani, kani::stub(crate::opaque::unmask_response, crate::verif_kani::w_stubs::unmask))]
     #[cfg_attr(kani, kani::stub(crate::envelope::Envelope::open, crate::envelope::Envelope::verif_open_stub))]
-    fn w3_client_login_finish_explicit_ids_ctx [unwind = 46] { login_finish_case(1, true); }
+    fn w3_client_login_finish_explicit_ids_ctx [unwind = 120] { login_finish_case(1, true); }
     #[cfg_attr(kani, kani::stub(crate::opaque::get_password_derived_key, crate::verif_kani::w_stubs::gpdk))]
     #[cfg_attr(kani, kani::stub(crate::opaque::unmask_response, crate::verif_kani::w_stubs::unmask))]
     #[cfg_attr(kani, kani::stub(crate::envelope::Envelope::open, crate::envelope::Envelope::verif_open_stub))]
-    fn w3_client_login_finish_mixed_ids [unwind = 46] { login_finish_case(2, true); }
+    fn w3_client_login_finish_mixed_ids [unwind = 120] { login_finish_case(2, true); }
 
     #[cfg_attr(kani, kani::stub(crate::opaque::mask_response, crate::verif_kani::w_stubs::mask))]
     #[cfg_attr(kani, kani::stub(crate::opaque::oprf_key_from_seed, crate::verif_kani::w_stubs::oprf_key))]
-    fn w2_server_login_start_record [unwind = 56] { let c = any_bytes::<2>(); server_login_start_case(true, 0, false, &c); }
+    fn w2_server_login_start_record [unwind = 120] { let c = any_bytes::<2>(); server_login_start_case(true, 0, false, &c); }
     #[cfg_attr(kani, kani::stub(crate::opaque::mask_response, crate::verif_kani::w_stubs::mask))]
     #[cfg_attr(kani, kani::stub(crate::opaque::oprf_key_from_seed, crate::verif_kani::w_stubs::oprf_key))]
-    fn w2_server_login_start_record_ids_ctx [unwind = 56] { server_login_start_case(true, 1, true, &[]); }
+    fn w2_server_login_start_record_ids_ctx [unwind = 120] { server_login_start_case(true, 1, true, &[]); }
     #[cfg_attr(kani, kani::stub(crate::opaque::mask_response, crate::verif_kani::w_stubs::mask))]
     #[cfg_attr(kani, kani::stub(crate::opaque::oprf_key_from_seed, crate::verif_kani::w_stubs::oprf_key))]
-    fn w2_server_login_start_unregistered [unwind = 56] { let c = any_bytes::<2>(); server_login_start_case(false, 0, false, &c); }
+    fn w2_server_login_start_unregistered [unwind = 120] { let c = any_bytes::<2>(); server_login_start_case(false, 0, false, &c); }
     #[cfg_attr(kani, kani::stub(crate::opaque::mask_response, crate::verif_kani::w_stubs::mask))]
     #[cfg_attr(kani, kani::stub(crate::opaque::oprf_key_from_seed, crate::verif_kani::w_stubs::oprf_key))]
-    fn w2_server_login_start_unregistered_ids_ctx [unwind = 56] { server_login_start_case(false, 2, true, &[]); }
+    fn w2_server_login_start_unregistered_ids_ctx [unwind = 120] { server_login_start_case(false, 2, true, &[]); }
     #[cfg_attr(kani, kani::stub(crate::opaque::mask_response, crate::verif_kani::w_stubs::mask))]
     #[cfg_attr(kani, kani::stub(crate::opaque::oprf_key_from_seed, crate::verif_kani::w_stubs::oprf_key))]
-    fn w2_server_login_start_external_key [unwind = 56] { server_login_start_external(true); }
+    fn w2_server_login_start_external_key [unwind = 120] { server_login_start_external(true); }
     #[cfg_attr(kani, kani::stub(crate::opaque::mask_response, crate::verif_kani::w_stubs::mask))]
     #[cfg_attr(kani, kani::stub(crate::opaque::oprf_key_from_seed, crate::verif_kani::w_stubs::oprf_key))]
-    fn w2_server_login_start_external_key_unregistered [unwind = 56] { server_login_start_external(false); }
+    fn w2_server_login_start_external_key_unregistered [unwind = 120] { server_login_start_external(false); }
 }
